@@ -37,6 +37,11 @@ pub struct MtScript {
     /// frame decoder in several reads)
     #[serde(default)]
     pub msg_size: usize,
+    /// a further publisher on topic 0 that is not this library (its frames are laid out by hand):
+    /// it sends one message whose frame payload is this many bytes short of the frame limit,
+    /// then a small one
+    #[serde(default)]
+    pub raw_limit_slack: Option<usize>,
 }
 
 pub fn gen_script(rng: &mut Rng) -> MtScript {
@@ -48,7 +53,12 @@ pub fn gen_script(rng: &mut Rng) -> MtScript {
     };
     let n = rng.usize(2, 3);
     let topics = names.into_iter().take(n).map(|name| TopicSpec { name, n_pubs: rng.usize(1, 2), n_subs: rng.usize(1, 2), msgs_per_pub: rng.usize(1, 12) }).collect();
-    MtScript { net: mild_net(rng), rt_seed: rng.next(), topics, gap_ms: *rng.pick(&[0u64, 0, 1, 20]), msg_size: *rng.pick(&[0usize, 0, 900, 1_500, 5_000, 40_000]) }
+    let raw_limit_slack = if rng.chance(1, 5) { Some(*rng.pick(&[0usize, 0, 1, 3, 7, 8, 9, 16, 100])) } else { None };
+    let mut net = mild_net(rng);
+    if raw_limit_slack.is_some() {
+        net.loss_ppm = 0;
+    }
+    MtScript { net, rt_seed: rng.next(), topics, gap_ms: *rng.pick(&[0u64, 0, 1, 20]), msg_size: *rng.pick(&[0usize, 0, 900, 1_500, 5_000, 40_000]), raw_limit_slack }
 }
 
 type Received = Rc<RefCell<Vec<String>>>;
@@ -105,16 +115,38 @@ async fn scenario(world: Rc<World>, sc: MtScript) -> AResult<Vec<(usize, Vec<Str
             })));
         }
     }
+    if let Some(slack) = sc.raw_limit_slack {
+        let gr = world.new_group();
+        let (ep, conn) = world.raw_trusted(gr, None).await?;
+        let topic = selium_protocol::TopicName::try_from(sc.topics[0].name.as_str()).map_err(|e| anyhow::anyhow!("{e}"))?;
+        tasks.push(tokio::task::spawn_local(ACTOR.scope(gr, async move {
+            let _keep = ep;
+            let reg = selium_protocol::Frame::RegisterPublisher(selium_protocol::PublisherPayload { topic, retention_policy: 0, operations: vec![] });
+            let Ok(mut st) = raw_open(&conn, reg).await else { return };
+            if !matches!(st.next().await, Some(Ok(selium_protocol::Frame::Ok))) {
+                return;
+            }
+            let mut big = b"T0:R:0;".to_vec();
+            big.resize(message_len_for_slack(slack), b'y');
+            let _ = st.write().write_all(&hand_encode_message(&big)).await;
+            let _ = st.write().write_all(&hand_encode_message(b"T0:R:1")).await;
+            let _ = st.write().finish().await;
+            // keep the connection until the server has read everything
+            tokio::time::sleep(Duration::from_secs(600)).await;
+        })));
+    }
+    let raw_task = if sc.raw_limit_slack.is_some() { tasks.pop() } else { None };
     for t in tasks {
         let _ = t.await;
     }
+    let _raw_task = raw_task;
     // complete, or nothing has arrived anywhere for 120 virtual seconds (progress-based: large
     // padded messages under heavy reordering travel at a few tens of kilobytes per second)
     let total = |l: &Vec<(usize, Received)>| l.iter().map(|(_, g)| g.borrow().len()).sum::<usize>();
     let mut last = total(&lists);
     let mut deadline = tokio::time::Instant::now() + Duration::from_secs(120);
     loop {
-        let done = lists.iter().all(|(ti, g)| g.borrow().len() >= sc.topics[*ti].n_pubs * sc.topics[*ti].msgs_per_pub);
+        let done = lists.iter().all(|(ti, g)| g.borrow().len() >= sc.topics[*ti].n_pubs * sc.topics[*ti].msgs_per_pub + if *ti == 0 && sc.raw_limit_slack.is_some() { 2 } else { 0 });
         if done || tokio::time::Instant::now() >= deadline {
             break;
         }
@@ -127,8 +159,16 @@ async fn scenario(world: Rc<World>, sc: MtScript) -> AResult<Vec<(usize, Vec<Str
     }
     tokio::time::sleep(Duration::from_millis(1000)).await;
     // the padding is checked here and stripped, the oracle works on the labels
+    let raw_len = sc.raw_limit_slack.map(message_len_for_slack).unwrap_or(0);
     let strip = |m: &String| -> String {
         match m.split_once(';') {
+            Some((label, pad)) if label == "T0:R:0" => {
+                if pad.bytes().all(|b| b == b'y') && m.len() == raw_len {
+                    label.to_string()
+                } else {
+                    format!("GARBLED:{}", m.chars().take(40).collect::<String>())
+                }
+            }
             Some((label, pad)) if pad.bytes().all(|b| b == b'x') && m.len() == sc.msg_size => label.to_string(),
             Some(_) => format!("GARBLED:{}", m.chars().take(40).collect::<String>()),
             None => m.clone(),
@@ -151,7 +191,14 @@ pub fn execute(prop: &str, sc: &MtScript, opts: &ExecOpts) -> Outcome {
             fold(&mut out, prop, &r);
             let lost = r.events.iter().any(|e| e.message.contains("lost connection"));
             if lost {
-                out.inconclusive = true;
+                if sc.net.loss_ppm == 0 {
+                    // nobody cut anything and no datagram was lost: a stream that loses its
+                    // connection here was dropped by the server
+                    let who = r.events.iter().find(|e| e.message.contains("lost connection")).and_then(|e| e.actor);
+                    out.violate(prop, "stream-dropped-by-server", "multi-topic", format!("a client stream (network group {who:?}) lost its connection on a loss-free network with nothing cut: the server dropped a healthy peer (frame at the limit from another publisher: {:?})", sc.raw_limit_slack));
+                } else {
+                    out.inconclusive = true;
+                }
             }
             match &r.value {
                 None => {
@@ -178,6 +225,19 @@ pub fn execute(prop: &str, sc: &MtScript, opts: &ExecOpts) -> Outcome {
                             if mine.iter().map(|s| s.as_str()).collect::<Vec<_>>() != want.iter().map(|s| s.as_str()).collect::<Vec<_>>() {
                                 let tag = if mine.len() < want.len() { "messages-lost" } else if mine.len() > want.len() { "messages-duplicated" } else { "messages-reordered" };
                                 out.violate(prop, tag, "multi-topic", format!("subscriber {si} of {:?}: from publisher {p} it received {} messages {:?}…, {} were sent in order", t.name, mine.len(), mine.iter().take(4).collect::<Vec<_>>(), want.len()));
+                                break;
+                            }
+                        }
+                    }
+                    if let Some(slack) = sc.raw_limit_slack {
+                        out.fault("raw_publisher_frame_at_limit");
+                        for (si, (ti, got)) in lists.iter().enumerate() {
+                            if *ti != 0 {
+                                continue;
+                            }
+                            let mine: Vec<&str> = got.iter().filter(|m| m.starts_with("T0:R:")).map(|s| s.as_str()).collect();
+                            if mine != ["T0:R:0", "T0:R:1"] {
+                                out.violate(prop, "messages-lost", "multi-topic:frame-at-limit", format!("subscriber {si} of {:?}: a publisher that lays out its own frames sent a message whose frame payload is {slack} bytes short of the limit and then a small one; the subscriber received {:?} from it (and {} messages in all)", sc.topics[0].name, mine, got.len()));
                                 break;
                             }
                         }
@@ -255,6 +315,11 @@ impl Family for MultiTopic {
         if sc.msg_size > 0 {
             let mut c = sc.clone();
             c.msg_size = 0;
+            out.push(c);
+        }
+        if sc.raw_limit_slack.is_some() {
+            let mut c = sc.clone();
+            c.raw_limit_slack = None;
             out.push(c);
         }
         if sc.net.loss_ppm > 0 || sc.net.dup_ppm > 0 || sc.net.jitter_ms > 0 {
